@@ -16,7 +16,7 @@ use refchess::Pos;
 use serde_json::{json, Value};
 use std::time::Duration;
 
-pub const RULE: &str = "Layer A (in-process, model-based): op lists of 1..12 ops over one engine — NewGame, Resume (the position command that was current before the last ucinewgame, sent again, continued by 0..2 plies), SetPos (position command with FEN and move list; small positions, mates and stalemates included), Play(k plies of the same game, or one out-and-back cycle of reversible moves after which the same placement stands without its en-passant right), Search{depth 1..4, budget None | Nodes(k)} where k ranges over 0..2x the node count of the previous completed search (expiry before the first node, inside depth 1, between iterations, inside the last iteration; Nodes(0) is the image of 'movetime 0' / a clock at or below the reserve). A seventh of the cases (and all cases of the part 'twins') open with the twin scenario: a position with a legal en-passant capture or castle is searched, then the same placement without that right is set on the same engine and searched no deeper. Invariant after every Search: the returned move is a reference-legal move of the CURRENT position iff one exists, and none iff there is none. Part 'selfplay' (layer A): a game played out on ONE engine the way a GUI uses it, from endings with a decisive material advantage, mate neighbourhoods and small positions: position (whole game restated), go depth 1..4 (varying from move to move, 15 % under a node budget), the answer is played and the other side's go follows on the same engine; 18 % human-like deviations (a random legal move instead of the answer), 12 % take-backs of one or two plies followed by another search; up to 30 plies or the end of the game; one game in twenty-five on an engine whose tables are kept full by heavy middlegame searches (1.4 M nodes each, ended by a node deadline) before the game and between its moves — positions the engine has proved won or lost inside one search are the roots of later, often shallower, ones. Same invariant after every search. Layer B (black-box): scripts of ucinewgame?, 1..5 rounds of position + go (depth 1..3 pre-screened; movetime in {0,1,3,10,40}; clock sets wtime,btime 0..12000 with increments in any order, on both sides of the 5 s reserve) + isready; between consecutive readyok barriers exactly one line starts with 'bestmove', its move is legal in the position last set, or 0000 iff that position has no legal move. Part 'B-game': the real binary plays a game against itself under a real clock (position restated, go with both clocks and increments running down from 0.4..7.5 s on both sides of the reserve, the answer played and charged to the mover's clock, 4..15 plies), same oracle per go. Non-trivial = a search on a position with >=2 legal moves that follows >=1 earlier search in the same engine/process or runs under a budget that expires before the requested depth completes; distinct by (history of ops / script text).";
+pub const RULE: &str = "Layer A (in-process, model-based): op lists of 1..12 ops over one engine — NewGame, Resume (the position command that was current before the last ucinewgame, sent again, continued by 0..2 plies), SetPos (position command with FEN and move list; small positions, mates and stalemates included), Play(k plies of the same game, or one out-and-back cycle of reversible moves after which the same placement stands without its en-passant right), Search{depth 1..4, budget None | Nodes(k)} where k ranges over 0..2x the node count of the previous completed search (expiry before the first node, inside depth 1, between iterations, inside the last iteration; Nodes(0) is the image of 'movetime 0' / a clock at or below the reserve). A seventh of the cases (and all cases of the part 'twins') open with the twin scenario: a position with a legal en-passant capture or castle is searched, then the same placement without that right is set on the same engine and searched no deeper. Invariant after every Search: the returned move is a reference-legal move of the CURRENT position iff one exists, and none iff there is none. Part 'selfplay' (layer A): a game played out on ONE engine the way a GUI uses it, from endings with a decisive material advantage, mate neighbourhoods and small positions: position (whole game restated), go depth 1..4 (varying from move to move, 15 % under a node budget), the answer is played and the other side's go follows on the same engine; 18 % human-like deviations (a random legal move instead of the answer), 12 % take-backs of one or two plies followed by another search; up to 30 plies or the end of the game; one game in fifty on an engine whose tables are kept full by heavy middlegame searches (1 M nodes each, ended by a node deadline) before the game and between its moves — positions the engine has proved won or lost inside one search are the roots of later, often shallower, ones. Same invariant after every search. Layer B (black-box): scripts of ucinewgame?, 1..5 rounds of position + go (depth 1..3 pre-screened; movetime in {0,1,3,10,40}; clock sets wtime,btime 0..12000 with increments in any order, on both sides of the 5 s reserve) + isready; between consecutive readyok barriers exactly one line starts with 'bestmove', its move is legal in the position last set, or 0000 iff that position has no legal move. Part 'B-game': the real binary plays a game against itself under a real clock (position restated, go with both clocks and increments running down from 0.4..7.5 s on both sides of the reserve, the answer played and charged to the mover's clock, 4..15 plies), same oracle per go. Non-trivial = a search on a position with >=2 legal moves that follows >=1 earlier search in the same engine/process or runs under a budget that expires before the requested depth completes; distinct by (history of ops / script text).";
 
 #[derive(Debug, Clone)]
 enum Op {
@@ -416,7 +416,7 @@ fn part_selfplay(bytes: &[u8], stats: &mut Stats) -> Verdict {
     // one game in twenty-five is played on an engine whose tables are kept full: a heavy
     // middlegame search (1.4 M nodes, ended by a node deadline) before the game and before some of
     // its moves — "whatever it searched earlier in the same process"
-    let veteran = s.chance(3) && !NO_HEAVY.with(|c| c.get());
+    let veteran = s.chance(2) && !NO_HEAVY.with(|c| c.get());
     let mut heavy_nodes = 0u64;
     for ply in 0..plies {
         if veteran && (ply == 0 || s.chance(10)) {
@@ -434,10 +434,10 @@ fn part_selfplay(bytes: &[u8], stats: &mut Stats) -> Verdict {
                 let chunks = if ply == 0 { 2 + s.below(3) } else { 1 };
                 for _ in 0..chunks {
                     log.push(json!(text));
-                    log.push(json!({"search_depth": 12, "budget_nodes": 1_400_000}));
+                    log.push(json!({"search_depth": 12, "budget_nodes": 1_000_000}));
                     let r = std::panic::catch_unwind(std::panic::AssertUnwindSafe(|| {
                         fl.verif_handle_command(&text);
-                        go_through_handler(&mut fl, 12, Some(1_400_000), 3_000_000)
+                        go_through_handler(&mut fl, 12, Some(1_000_000), 3_000_000)
                     }));
                     match r {
                         Ok((Ok(Some(m)), nodes, _)) if hp.find_uci(&m).is_some() => heavy_nodes += nodes,
@@ -777,7 +777,7 @@ pub fn run(tier: Tier, seed: u64, known: &Known) -> PropRun {
         run.failure = fl;
         return run;
     }
-    let part = Part { name: "selfplay", cases: tier.pick(1_200, 40_000), min_len: 24, max_len: 400, max_shrink: 200, threads: threads() };
+    let part = Part { name: "selfplay", cases: tier.pick(800, 40_000), min_len: 24, max_len: 400, max_shrink: 200, threads: threads() };
     let (st, fl) = run_part(&part, seed, known, part_selfplay);
     run.stats.merge(st);
     if fl.is_some() {
